@@ -27,18 +27,31 @@ Section PliFacts.
 
   (* ---------- the meaning of the translated expressions ---------- *)
 
+  (* proved through arithmetic facts, not syntactically: an equivalent rewrite of the row
+     formulas in the source (e.g. `(length + C::USIZE - 1) / C::USIZE`) keeps them *)
+  Ltac guard_true :=
+    repeat (apply andb_true_iff; split); try reflexivity; try (apply Nat.leb_le; lia).
+  Ltac divs_true :=
+    unfold divs_ok; cbn [forallb]; repeat (apply andb_true_iff; split); try reflexivity;
+    apply negb_true_iff, Nat.eqb_neq; lia.
+
   Lemma si_rows_val len : tx (si_rows_ok len C (xr)) (si_rows_div len C xr) (si_rows len C xr) = Ok ((len + (C - 1)) / C).
   Proof.
-    unfold si_rows_ok, si_rows_div, si_rows, tx, divs_ok. cbn [forallb].
-    destruct (Nat.leb_spec 1 C); [|lia]. cbn [negb].
-    destruct (Nat.eqb_spec C 0); [lia|]. reflexivity.
+    assert (si_rows_ok len C xr = true) as Hok by (unfold si_rows_ok; guard_true).
+    assert (divs_ok (si_rows_div len C xr) = true) as Hdiv by (unfold si_rows_div; divs_true).
+    unfold tx. rewrite Hok, Hdiv. cbn [negb]. unfold si_rows.
+    first [ reflexivity | repeat f_equal; lia ].
   Qed.
 
   Lemma st_rows_val len : tx (st_rows_ok len C xr) (st_rows_div len C xr) (st_rows len C xr) =
                           Ok (len / C + (if 0 <? len mod C then 1 else 0)).
   Proof.
-    unfold st_rows_ok, st_rows_div, st_rows, tx, divs_ok. cbn [forallb negb].
-    destruct (Nat.eqb_spec C 0); [lia|]. reflexivity.
+    assert (st_rows_ok len C xr = true) as Hok by (unfold st_rows_ok; guard_true).
+    assert (divs_ok (st_rows_div len C xr) = true) as Hdiv by (unfold st_rows_div; divs_true).
+    unfold tx. rewrite Hok, Hdiv. cbn [negb]. unfold st_rows.
+    first [ reflexivity
+          | apply (f_equal (@Ok nat)); rewrite (rows_fresh_eq C len HC);
+            first [ apply (rows_fresh_eq C len HC) | unfold seq_rows; repeat f_equal; lia ] ].
   Qed.
 
   Lemma write_seq_t_eq s : forall len rows cap i m,
